@@ -181,3 +181,33 @@ Example C19_dollar_nonvacuous :
   translate (src_of ks) (rev (name_offsets 0 ks)) (Some 0) = spec_of ks /\
   spec_of ks = s_return ++ s_rec ++ [97; 32; 43; 32; 39; 36; 98; 39; 32; 35; 32; 36; 99; 10] ++ s_rec ++ [100].
 Proof. exact translate_example. Qed.
+
+(* ---- placement into the shared module (gencode._make_formula_field): a blank line, the `def` line, then exactly
+   the physical lines of the body, then a blank line; so a body whose lines are all comment/raise/indented lines
+   stays inside its own function.  The stub bodies satisfy the hypothesis (second and third theorem). ---- *)
+Theorem C19_field_lines : forall indent name params body,
+  Forall (fun c => c <> NL /\ c <> CR) indent -> Forall (fun c => c <> NL /\ c <> CR) name ->
+  Forall (fun c => c <> NL /\ c <> CR) params -> no_bare_cr body = true ->
+  phys_lines (formula_field indent name params body)
+  = [] :: (indent ++ s_def ++ name ++ [40] ++ params ++ [41; 58]) :: phys_lines body ++ [[]].
+Proof. exact field_lines. Qed.
+
+Theorem C19_stub_body_no_bare_cr_partial : forall ind printable name msg line col1 ltext t,
+  ~ In NL ind -> ~ In CR ind -> Forall (fun c => c <> NL /\ c <> CR) name -> no_bare_cr (rstrip t) = true ->
+  no_bare_cr (indent_re ind (stub_code printable name msg line col1 ltext t)) = true.
+Proof. exact stub_body_nbc. Qed.
+
+Theorem C19_stub_body_no_bare_cr_fixed : forall ind printable name msg line col1 ltext t,
+  ~ In NL ind -> ~ In CR ind -> Forall (fun c => c <> NL /\ c <> CR) name ->
+  no_bare_cr (indent_re ind (stub_fixed printable name msg line col1 ltext t)) = true.
+Proof. exact stub_body_nbc_fixed. Qed.
+
+(* def X(rec, table): with the stub of "foo(\rbar" after the repair *)
+Example C19_field_nonvacuous :
+  let body := indent_re four_spaces (stub_fixed (fun _ => true) s_SyntaxError [] 1 1 [] w_foo_cr_bar) in
+  no_bare_cr body = true /\
+  phys_lines (formula_field [32; 32] [88] [114; 101; 99] body)
+  = [ []; [32; 32; 100; 101; 102; 32; 88; 40; 114; 101; 99; 41; 58];
+      [32; 32; 32; 32; 35; 32; 102; 111; 111; 40]; [32; 32; 32; 32; 35; 32; 98; 97; 114];
+      four_spaces ++ raise_stmt (fun _ => true) s_SyntaxError [] 1 1 []; [] ].
+Proof. split; vm_compute; reflexivity. Qed.
